@@ -57,7 +57,7 @@ def walk(ctx, case) -> None:
     scale = float(np.max(np.abs(truth))) or 1.0
     slack = 0.0 if exact else sut.ulp_slack(n, scale)
     gslack = 1e-9 * (1.0 + scale * (1 << n))
-    game = sut.new_game(n, BOUNDS[comp])
+    game = sut.object_for_case(ctx, case, comp)
     size = 1 << n
     try:
         sut.set_knowledge(game, values, sorted(minimal_masks(n)))
